@@ -52,6 +52,9 @@ CHECKS = {
  "C11": (MC, "5/C11",
   "Misuse classes (index outside the shape incl. negative, string too long for the space fixed at creation, array update of another length, same-length update with larger dynamic items, union non-member by object and by name, buffer of another context, offset without buffer) executed on symbolically placed objects with live neighbours: an exception must be raised, the write log must be unchanged at that point for every placement, object and neighbours keep their values.",
   W_NOTE, W_TECH),
+ "C17": (MC, "section 15/C17",
+  "PARTIAL. The real KernelDispatcher.__call__, KernelCpu.__call__ and KernelCpu.to_function_arg are executed for xobjects living at SYMBOLIC offsets of symbolically placed buffers (several objects per buffer; after growth by symbolic amounts, allocation of symbolic sizes until growth, further allocations). The three foreign calls of that code are stubs (S12): ffi.from_buffer(x) = address of the first byte of x, ffi.cast(ctype, address) = typed pointer, np.frombuffer(storage).ctypes.data = address of the storage, where an address is (storage identity, z3 offset term); the compiled function is a recorder that refuses a pointer whose C type differs from the declared one (what cffi does at the call) and keeps its arguments. Obligations decided by z3 for every placement: each xobject argument (struct, nested/dynamic struct, array object, union holder) is a pointer of its declared C type into the CURRENT storage of its buffer at exactly the object's offset; an xobject array passed where a pointer to scalars is declared points to offset + data offset with the item's C type; declared argument order; NumPy arrays/slices give a pointer to their first element with their element type; the declared return value is handed back unchanged. Enumerated, decided by execution (no solver variable involved): scalar conversion for the 10 scalar types at their extremes, refusal of positional/missing/extra/misspelt arguments and of arrays of another element type. Everything the stubs hide (cffi, the compiled code) is covered only by the concrete validation pass, which runs the same scenario with real compiled probe kernels that report the address / element / scalar they received, serial and OpenMP.",
+  W_NOTE + " C17: 6 xobject types, 20 probe kernels (enumerated); GPU contexts, kernels with n_threads (launch geometry is C16), and the C semantics of the compiled kernel are outside the claim.", W_TECH),
  "C18": (MC, "section 15/C18",
   "Histories (set a leaf through the dressed attribute / through the underlying struct, assign a scalar-array field, assign a dressed object to a nested field from the same or another buffer, assign to a reference field from the same / another buffer, copy into the same / another / a new buffer, move, move a nested part) executed with the real HybridClass machinery (descriptors, rename tables, _reinit_from_xobject, copy, move) on hybrid classes of a bounded catalogue placed on symbolic buffers. After every step, for every placement on the path: the dressed attributes, the underlying struct view and a plain-Python model agree (incl. renamed fields); every nested dressed part lives in its container's buffer at the offset of the field it dresses (z3 equality of offset terms); a nested assignment stores a copy inside the container, disjoint from the assigned object (z3), allocating nothing, independent both ways; a reference assignment shares (same offset, no allocation, same Python object) and is refused across buffers leaving the object unchanged; copy is equal, of the same class, disjoint/in the requested buffer, independent both ways; move ends in the target buffer with equal value and all nested parts relocated, and is refused for nested parts and reference-bearing objects.",
   W_NOTE + " C18: 7 hybrid class definitions quick / 10 thorough (scalars with and without declared defaults, strings, scalar arrays of 1-3 axes, nested hybrid classes up to 3 levels, references to hybrid classes, renamed fields), 8 / 11 histories of <= 5 steps, nested parts given as dicts or as dressed objects; placements: roomy free chunk, capacity 0 with growth at every allocation, arbitrary (tight) free chunk with solver forks per allocation. The typed NumPy views of the symbolic buffer are write-back arrays (stub S11: an element assignment through a view is stored to the write-log), validated by the concrete pass.", W_TECH),
@@ -75,7 +78,6 @@ CHECKS = {
   "pycparser AST -> z3 execution predicates + symbolic execution of the real launch code; z3 unsat of set equality/injectivity for all n, block; simulated-launch replay"),
 }
 NA = {
- "C17": "kernel-call glue around cffi/ctypes pointers and NumPy scalar constructors: values cross into C objects a symbolic executor cannot follow and there is no arithmetic to encode beyond ctypes.data+_offset; needs compiled kernels and byte-level observation (execution, not solving). DESIGN.md section 6.",
 }
 PENDING = "check for this property is not built yet at this commit (planned, see DESIGN.md section 5); not claimed until it runs"
 ALL = ["C%02d" % i for i in range(1, 21)]
